@@ -10,6 +10,7 @@
 //! out-of-range drains.
 
 pub mod adapters;
+pub mod types;
 
 
 use simcore::core::{catch, inject_panic, shrink_list, Caught, Ctx, Tier, World, WorldInfo};
